@@ -12,6 +12,7 @@ import SmppVerif.Model.Policy
 import SmppVerif.Model.DriverCorr
 import SmppVerif.Model.DriverPdu
 import SmppVerif.Model.DriverJson
+import SmppVerif.Model.DriverPersist
 
 namespace SmppVerif.Driver
 open SmppVerif SmppVerif.Wire
@@ -202,7 +203,10 @@ def stepS (st : DState) (line : String) : DState × String :=
     | none =>
       match DriverJson.step ws with
       | some out => (st, out)
-      | none => (st, step line)
+      | none =>
+        match DriverPersist.step ws with
+        | some out => (st, out)
+        | none => (st, step line)
 
 partial def loop (h : IO.FS.Stream) (out : IO.FS.Stream) (st : DState) : IO Unit := do
   let line ← h.getLine
